@@ -302,6 +302,8 @@ class _StackedJointDistribution(JointDistribution, Distribution):
 
         # Split the stacked input into individual inputs and call superclass
         split_indices = np.cumsum(super().dim)  # list(accumulate(super().dim))
+        if np.size(stacked_input) != split_indices[-1]:
+            raise ValueError(f"{self.__class__.__name__}.logd: the stacked input has {np.size(stacked_input)} entries but the joint distribution has dimension {split_indices[-1]}.")
         inputs = np.split(stacked_input, split_indices[:-1])
         names = self.get_parameter_names()
 
